@@ -8,7 +8,7 @@
     the floats handed to the constructors; witnesses are untrusted. *)
 From Coq Require Import QArith Qreals Reals List.
 From D3 Require Import Base.Ops Base.Vec Base.RVec Spec.Convex Checker.Shapes Checker.Deep Checker.NarrowB
-                       Model.Simplex Model.JoltLoop Proofs.JoltLoop.
+                       Model.Simplex Model.JoltLoop Proofs.JoltLoop Model.DistPrim Model.GjkLibccd Proofs.GjkLibccd.
 Import ListNotations.
 
 (** every collider expression denotes a convex set *)
@@ -60,6 +60,43 @@ Theorem C02_separating_axis_exit_sound : forall (A B : set3) tol p q s,
   forall a b, A a -> B b -> (Q2R (1 # 4503599627370496) <= norm (idir s) * norm (vsub a b))%R.
 Proof. exact separating_axis_exit_sound. Qed.
 
+(** ** the libccd-derived tests (model Model/GjkLibccd.v, tied to the code by trace replay on every run) *)
+(** gjk_intersection_libccd: the exit [dot(w, dir) < -sqrt(eps)] answers False, and then the sets are disjoint *)
+Theorem C02_libccd_before_origin_exit_sound : forall (A B : set3) s dir p q,
+  is_support A dir p -> is_support B (vneg dir) q ->
+  (EPS <= dot (vsub p q) (vsub p q))%R ->
+  (dot (vsub p q) dir < - EPS_SQRT)%R ->
+  gjk_step s dir p q = SAns false /\ ~ intersect A B.
+Proof. exact libccd_before_origin_exit_sound. Qed.
+
+(** mpr_intersection: every False of portal discovery bounds the overlap along the search direction by eps
+    (NOT disjointness: the threshold of the code is +eps) *)
+Theorem C02_mpr_discovery_false_exits_bound : forall (A B : set3) max_it tol ph p q,
+  (match ph with PRefine _ _ _ _ => False | _ => True end) ->
+  is_support A (phase_dir ph) p -> is_support B (vneg (phase_dir ph)) q ->
+  mpr_step max_it tol ph p q = MAns false ->
+  forall a b, A a -> B b -> (dot (vsub a b) (phase_dir ph) < EPS)%R.
+Proof. exact mpr_discovery_false_exits_bound. Qed.
+
+(** mpr_intersection, refinement: the exit "new support point does not encapsulate the origin" proves disjointness *)
+Theorem C02_mpr_refine_not_encapsulated_exit_sound : forall (A B : set3) v0 v1 v2 v3 p q,
+  is_support A (portal_dir v1 v2 v3) p -> is_support B (vneg (portal_dir v1 v2 v3)) q ->
+  encapsulates_origin (vsub p q) (portal_dir v1 v2 v3) = false ->
+  (forall max_it tol, mpr_step max_it tol (PRefine v0 v1 v2 v3) p q = MAns false) /\ ~ intersect A B.
+Proof. exact mpr_refine_not_encapsulated_exit_sound. Qed.
+
+(** non-vacuity of the libccd exit: A = {(0,0,0)}, B = {(2,0,0)}, direction (1,0,0): w = (-2,0,0), w.dir = -2 *)
+Example C02_libccd_exit_nonvacuous :
+  let A : set3 := fun x => x = V 0 0 0 in
+  let B : set3 := fun x => x = V 2 0 0 in
+  is_support A (V 1 0 0) (V 0 0 0) /\ is_support B (vneg (V 1 0 0)) (V 2 0 0) /\
+  (EPS <= dot (vsub (V 0 0 0) (V 2 0 0)) (vsub (V 0 0 0) (V 2 0 0)))%R /\
+  (dot (vsub (V 0 0 0) (V 2 0 0)) (V 1 0 0) < - EPS_SQRT)%R.
+Proof.
+  cbv zeta. unfold is_support, EPS, EPS_SQRT. cbn [cst ROps]. unfold Q2R. cbn.
+  repeat split; try (intros x ->; vunfold; Lra.lra); vunfold; Lra.lra.
+Qed.
+
 (** Non-vacuity: the cube [-1,1]^3 and the ball of radius 2 around (2,0,0) share the point
     (1/2,0,0) at depth 1/2 (parallelepiped route for the cube, ball route for the sphere);
     the same cube and the unit ball around (3,0,0) are 1 apart (certified for 0.999: the square root bound is conservative by 2^-64); wrong claims are rejected. *)
@@ -87,4 +124,8 @@ Print Assumptions C02_overlap_certificate_sound.
 Print Assumptions C02_gap_certificate_sound.
 Print Assumptions C02_classes_disjoint.
 Print Assumptions C02_separating_axis_exit_sound.
+Print Assumptions C02_libccd_before_origin_exit_sound.
+Print Assumptions C02_mpr_discovery_false_exits_bound.
+Print Assumptions C02_mpr_refine_not_encapsulated_exit_sound.
+Print Assumptions C02_libccd_exit_nonvacuous.
 Print Assumptions C02_nonvacuous.
